@@ -102,7 +102,11 @@ def main(pid, tier, seed, replay=None):
     coverage = {}
     assumptions = list(getattr(mod, 'ASSUMPTIONS', []))
 
-    # 1. proof obligations
+    # 1. proof obligations (Generated.v is re-extracted from the source first)
+    stale = aglib.regen_facts()
+    coverage['facts_stale'] = stale
+    if tier == 'thorough':
+        aglib.sh(['make', 'clean'], cwd=aglib.COQ, check=False)
     hyg = aglib.hygiene()
     proof = aglib.check_property_file(pid)
     proof_ok = proof['ok'] and not hyg
@@ -114,6 +118,13 @@ def main(pid, tier, seed, replay=None):
         'trusted_base': getattr(mod, 'TRUSTED_BASE', []) + aglib_trusted_base(),
         'hygiene_problems': hyg,
     })
+    if tier == 'thorough' and proof_ok:
+        rc, chk = aglib.coqchk(pid)
+        coverage['coqchk'] = chk[-1500:]
+        if rc != 0:
+            proof_ok = False
+            proof['broken'] = 'coqchk rejected the compiled development'
+            proof['log'] = chk[-1500:]
     if not proof_ok:
         why = hyg or proof.get('bad_axioms') or proof.get('broken') or 'proof check failed'
         log('PROOF BREAK for %s: %s\n%s' % (pid, why, proof.get('log', '')[-1500:]))
